@@ -119,10 +119,10 @@ Proof.
 Qed.
 
 (* the C04 statement between any two related stores *)
-Lemma step_rel_views s s' lim a v v' :
+Lemma step_rel_views_strong s s' lim a v v' :
   epoch_inv s -> step_rel s s' ->
   view_proxy lim s a = Some (Some v) -> view_proxy lim s' a = Some (Some v') ->
-  vp_epoch v <= vp_epoch v' /\ (vp_content v' <> vp_content v -> vp_epoch v < vp_epoch v').
+  vp_epoch v < vp_epoch v' \/ (vp_epoch v <= vp_epoch v' /\ vp_content v' = vp_content v).
 Proof.
   intros Hinv [Hmono Hrel]. rewrite !view_proxy_served.
   destruct (served s a) as [x|] eqn:Ex; [|discriminate].
@@ -133,8 +133,24 @@ Proof.
   destruct (Hrel a) as [E|F].
   - rewrite Ex, Ex' in E. inversion E; subst x'.
     pose proof (view_of_content _ _ _ _ _ _ _ Hv1 Hv1') as Ec.
-    pose proof (srv_epoch_mono _ _ x Hmono). split; [lia|]. intros Hne. congruence.
-  - rewrite Ex' in F. split; lia.
+    pose proof (srv_epoch_mono _ _ x Hmono). right. split; [lia|congruence].
+  - rewrite Ex' in F. left. lia.
+Qed.
+
+Lemma step_rel_views s s' lim a v v' :
+  epoch_inv s -> step_rel s s' ->
+  view_proxy lim s a = Some (Some v) -> view_proxy lim s' a = Some (Some v') ->
+  vp_epoch v <= vp_epoch v' /\ (vp_content v' <> vp_content v -> vp_epoch v < vp_epoch v').
+Proof.
+  intros Hinv Hrel Hv Hv'. destruct (step_rel_views_strong _ _ _ _ _ _ Hinv Hrel Hv Hv') as [H|[H1 H2]].
+  - split; [lia|intros _; exact H].
+  - split; [exact H1|]. intros Hne. congruence.
+Qed.
+
+Lemma view_epoch_le s lim a v : epoch_inv s -> view_proxy lim s a = Some (Some v) -> vp_epoch v <= st_epoch s.
+Proof.
+  intros Hinv. rewrite view_proxy_served. destruct (served s a) as [x|] eqn:Ex; [|discriminate].
+  intros Hv. inversion Hv as [Hv1]. rewrite (view_of_epoch _ _ _ _ _ Hv1). eapply served_epoch_le; eauto.
 Qed.
 
 (* ---------- building step_rel from the components ---------- *)
@@ -214,14 +230,16 @@ Proof.
 Qed.
 
 (* ---------- `good`: one store leads to another keeping the invariant and the relation ---------- *)
-Definition good (s s' : store) : Prop := epoch_inv s -> step_rel s s' /\ epoch_inv s'.
+Definition good (s s' : store) : Prop :=
+  st_epoch s <= st_epoch s' /\ (epoch_inv s -> step_rel s s' /\ epoch_inv s').
 
 Lemma good_refl s : good s s.
-Proof. intros H. split; [apply step_rel_refl|exact H]. Qed.
+Proof. split; [lia|]. intros H. split; [apply step_rel_refl|exact H]. Qed.
 
 Lemma good_trans s1 s2 s3 : good s1 s2 -> good s2 s3 -> good s1 s3.
 Proof.
-  intros G12 G23 H1. destruct (G12 H1) as [R12 H2]. destruct (G23 H2) as [R23 H3].
+  intros [M12 G12] [M23 G23]. split; [lia|]. intros H1.
+  destruct (G12 H1) as [R12 H2]. destruct (G23 H2) as [R23 H3].
   split; [eapply step_rel_trans; eauto|exact H3].
 Qed.
 
@@ -229,7 +247,7 @@ Qed.
 Lemma good_frame s s' :
   st_clusters s' = st_clusters s -> st_proxies s' = st_proxies s -> st_epoch s <= st_epoch s' -> good s s'.
 Proof.
-  intros Ec Ep He (H1 & H2 & H3). split.
+  intros Ec Ep He. split; [lia|]. intros (H1 & H2 & H3). split.
   - apply step_rel_build; [exact He| |].
     + intros n. left. rewrite Ec. reflexivity.
     + intros a. left. rewrite Ep. reflexivity.
@@ -243,7 +261,7 @@ Lemma good_insert s s' name cl' l1 l2 :
   st_epoch s < cl_epoch cl' -> cl_epoch cl' <= st_epoch s' ->
   good s s'.
 Proof.
-  intros Ec Ep Hf Hle (H1 & H2 & H3).
+  intros Ec Ep Hf Hle. split; [lia|]. intros (H1 & H2 & H3).
   assert (Hfresh : cl_fresh s s' name) by (unfold cl_fresh; rewrite Ec, alookup_ainsert_same; exact Hf).
   split.
   - apply step_rel_build; [lia| |].
@@ -269,7 +287,7 @@ Lemma good_reinsert s s' name cl :
   st_clusters s' = ainsert name cl (st_clusters s) ->
   st_proxies s' = st_proxies s -> st_epoch s <= st_epoch s' -> good s s'.
 Proof.
-  intros Hl Ec Ep He (H1 & H2 & H3).
+  intros Hl Ec Ep He. split; [lia|]. intros (H1 & H2 & H3).
   assert (Hsame : forall n, alookup n (st_clusters s') = alookup n (st_clusters s)).
   { intros n. rewrite Ec, alookup_ainsert. destruct (N.eqb n name) eqn:E; [|reflexivity].
     apply N.eqb_eq in E. subst. symmetry. exact Hl. }
@@ -288,7 +306,7 @@ Lemma good_remove s s' name l :
   st_proxies s' = tag_proxies (st_proxies s) l None ->
   st_epoch s < st_epoch s' -> good s s'.
 Proof.
-  intros Ec Ep He (H1 & H2 & H3). split.
+  intros Ec Ep He. split; [lia|]. intros (H1 & H2 & H3). split.
   - apply step_rel_build; [lia| |].
     + intros n. unfold cl_fresh. rewrite Ec, (alookup_aremove _ _ _ H1).
       destruct (N.eqb n name); [right; exact He|left; reflexivity].
@@ -305,7 +323,7 @@ Qed.
 (* every cluster and the global epoch set to e > global epoch *)
 Lemma good_setall s e : st_epoch s < e -> good s (set_all_cluster_epochs s e).
 Proof.
-  intros He (H1 & H2 & H3). unfold set_all_cluster_epochs. split.
+  intros He. split; [unfold set_all_cluster_epochs; cbn [st_epoch with_clusters with_epoch]; lia|]. intros (H1 & H2 & H3). unfold set_all_cluster_epochs. split.
   - apply step_rel_build; cbn [st_epoch st_clusters st_proxies with_clusters with_epoch]; [lia| |].
     + intros n. unfold cl_fresh. cbn [st_epoch st_clusters st_proxies with_clusters with_epoch].
       rewrite (alookup_map (fun c => set_cl_epoch c e)).
